@@ -139,6 +139,13 @@ _R10 = {
 }
 for _p, _t in _R10.items():
     CHECKS[_p]["text"] = CHECKS[_p]["text"] + _t
+_R11 = {
+ "C10": " A loop over the rows that uses the position it is at as a number ((i + 1) * f(row_i)) is reported; `acc = acc + f(row_i)` is read like `acc += f(row_i)`.",
+ "C14": " Sets of key sets are counted by proven equality of their members; collections.Counter(iterable) is its list (len = distinct, total = all).",
+ "C16": " Krum's distance matrix may also be filled row by row (`buf[i] = vector_norm(matrix - row_i)` over enumerate(matrix)) or scattered from torch.pdist through triu_indices(m, m, 1) to both triangles; any other enumeration of the pairs, and distances rebuilt from the Gramian (squared norms minus twice the inner products), are reported. TrimmedMean's window may be a topk followed by a slice of its ordered result.",
+}
+for _p, _t in _R11.items():
+    CHECKS[_p]["text"] = CHECKS[_p]["text"] + _t
 NA_PENDING = "check not built yet in this commit (planned, see DESIGN.md section 5)"
 NOT_APPLICABLE = {
  "C04": "Non-conflict is a numerical inequality on the outputs of a QP, a Frank-Wolfe loop and a conic solver with input-dependent allowances; no clause of it is visible in the shape of the code.",
